@@ -31,6 +31,28 @@ type c08Op struct {
 type c08Case struct {
 	Workers int     `json:"workers"`
 	Ops     []c08Op `json:"ops"`
+	Nb      uint32  `json:"nb,omitempty"` // value of the words next to the lock word
+}
+
+// c08Box embeds the lock between other data, the way the kernel's allocator
+// keeps its mutex next to its counters: the lock word is the only memory a
+// lock operation may look at or change.
+type c08Box struct {
+	pre  uint32
+	l    Spinlock
+	post uint32
+	far  uint64
+}
+
+func c08NewBox(nb uint32) *c08Box {
+	return &c08Box{pre: nb, post: nb, far: uint64(nb)<<32 | uint64(nb)}
+}
+
+func (b *c08Box) intact(nb uint32) *vlib.Failure {
+	if pre, post, far := atomic.LoadUint32(&b.pre), atomic.LoadUint32(&b.post), atomic.LoadUint64(&b.far); pre != nb || post != nb || far != uint64(nb)<<32|uint64(nb) {
+		return vlib.Failf("lock operations changed memory next to the lock word: words before/after were %#x, now %#x / %#x / %#x", nb, pre, post, far)
+	}
+	return nil
 }
 
 type c08Res struct {
@@ -48,7 +70,8 @@ func c08Run(c c08Case) (fail *vlib.Failure, blockedAcquires int) {
 	yieldFn = runtime.Gosched
 	defer func() { yieldFn = old }()
 
-	var l Spinlock
+	box := c08NewBox(c.Nb)
+	l := &box.l
 	reqs := make([]chan string, c.Workers)
 	done := make(chan c08Res, c.Workers*2)
 	var wg gosync.WaitGroup
@@ -248,14 +271,18 @@ func c08Run(c c08Case) (fail *vlib.Failure, blockedAcquires int) {
 			return f, blockedAcquires
 		}
 	}
-	return nil, blockedAcquires
+	return box.intact(c.Nb), blockedAcquires
 }
+
+// c08Neighbours are the values the memory around the lock word is filled with.
+var c08Neighbours = []uint32{0, 0xffffffff, 1, 0xffffffff, 0x80000000}
 
 func TestVerifC08(t *testing.T) {
 	st := vlib.For("C08")
 	defer vlib.Flush()
 	rapid.Check(t, func(t *rapid.T) {
 		var c c08Case
+		c.Nb = rapid.SampledFrom(c08Neighbours).Draw(t, "neighbour-words")
 		c.Workers = rapid.IntRange(1, 6).Draw(t, "workers")
 		n := rapid.IntRange(1, 30).Draw(t, "nops")
 		for i := 0; i < n; i++ {
@@ -302,6 +329,7 @@ type c08Prog struct {
 
 type c08Stress struct {
 	Progs []c08Prog `json:"progs"`
+	Nb    uint32    `json:"nb,omitempty"` // value of the words next to the lock word
 }
 
 type c08Record struct{ a, b, c, d uint64 }
@@ -321,8 +349,9 @@ func c08RunStress(c c08Stress) (fail *vlib.Failure, contention int64) {
 	yieldFn = runtime.Gosched
 	defer func() { yieldFn = old }()
 
+	box := c08NewBox(c.Nb)
+	l := &box.l
 	var (
-		l        Spinlock
 		holders  int32
 		counter  int // protected, non-atomic
 		rec      c08Record
@@ -425,7 +454,7 @@ watch:
 	case atomic.LoadUint32(&l.state) != 0:
 		return vlib.Failf("lock still taken after every holder released it"), contention
 	}
-	return nil, contention
+	return box.intact(c.Nb), contention
 }
 
 func TestVerifC08Stress(t *testing.T) {
@@ -433,6 +462,7 @@ func TestVerifC08Stress(t *testing.T) {
 	defer vlib.Flush()
 	rapid.Check(t, func(t *rapid.T) {
 		var c c08Stress
+		c.Nb = rapid.SampledFrom(c08Neighbours).Draw(t, "neighbour-words")
 		n := rapid.IntRange(2, 16).Draw(t, "workers")
 		for i := 0; i < n; i++ {
 			c.Progs = append(c.Progs, c08Prog{
